@@ -35,7 +35,7 @@ def scenario(exe, shim, root, seed, stats):
     backup = root + '.bak'
     shutil.copytree(a.root, backup, symlinks=True)
     cfg = 'ndisks=%d nparity=%d hashsize=%d splits=%d seed=%d' % (a.ndisks, a.nparity, hs, splits, seed)
-    triggers = ['all-missing', 'all-rewritten', 'zero-size', 'short-parity', 'empty-parity', 'blocksize', 'hashsize', 'missing-disk', 'lock']
+    triggers = ['all-missing', 'all-missing-plus-copy', 'all-rewritten', 'zero-size', 'short-parity', 'empty-parity', 'blocksize', 'hashsize', 'missing-disk', 'lock']
     rng2 = rng.fork()
     for trig in triggers:
         shutil.rmtree(a.root); shutil.copytree(backup, a.root, symlinks=True)
@@ -44,6 +44,18 @@ def scenario(exe, shim, root, seed, stats):
         desc = trig
         if trig == 'all-missing':
             d = rng2.choice(a.disks); fx.wipe_disk(a, d); override = ['--force-empty', '--force-zero']; desc += ' disk ' + d
+        elif trig == 'all-missing-plus-copy':
+            # every recorded file of the disk is gone, but a copy (same name, size, time-stamp) of a file of ANOTHER
+            # disk arrived on it: a copy says nothing about what was on this disk before
+            d = rng2.choice(a.disks)
+            others = [(dd, rel) for dd, rel in s.existing_files() if dd != d and os.path.getsize(a.path(dd, rel)) > 0]
+            if not others: continue
+            fx.wipe_disk(a, d)
+            for dd, rel in [rng2.choice(others) for _ in range(1 + rng2.below(2))]:
+                src = a.path(dd, rel); st = os.stat(src)
+                a.write(d, 'copied/' + os.path.basename(rel), open(src, 'rb').read(), st.st_mtime_ns)
+            if rng2.chance(1, 2): a.write(d, 'brandnew', rng2.bytes(1500), s.tick())
+            override = ['--force-empty', '--force-zero']; desc += ' disk ' + d
         elif trig == 'all-rewritten':
             d = rng2.choice(a.disks)
             files = [(dd, rel) for dd, rel in s.existing_files() if dd == d]
